@@ -67,7 +67,7 @@ def run(ctx):
             a = an.client_finish(p)
             res = fields(p.payload)
             ek = res.get('export_key')
-            env = fields(fields(res.get('message')).get('envelope'))
+            env = fields(msg_envelope(res.get('message')))
             nonces = [v for v in env.values() if is_rng_draw(v)]
             good = False
             if 'rp' in a and len(nonces) == 1:
